@@ -165,6 +165,8 @@ pub struct Run {
     /// dry runs of the crash enumerator keep the whole numbered I/O log
     pub keep_io_log: bool,
     pub io_log_all: Vec<verif::IoRec>,
+    /// reads after a damaged open are tagged (the contract only demands "no foreign payload")
+    pub dmg: bool,
 }
 
 pub fn compound(i: usize, t: &str) -> String {
@@ -209,10 +211,18 @@ impl Run {
             dead: false,
             keep_io_log: false,
             io_log_all: Vec::new(),
+            dmg: false,
         }
     }
 
-    pub fn emit(&mut self, v: Value) {
+    pub fn emit(&mut self, mut v: Value) {
+        if self.dmg {
+            if let Some(o) = v.as_object_mut() {
+                if o.get("ev").map(|e| e == "read" || e == "bread").unwrap_or(false) {
+                    o.insert("dmg".to_string(), json!(true));
+                }
+            }
+        }
         self.lines.push(v.to_string());
     }
 
